@@ -231,6 +231,19 @@ class Actor:
     # ---- builder calls (each is one event) ------------------------------------------------
     def call(self, name, fn, *a, **kw):
         sim = self.sim
+        if getattr(sim, "fresh_handles", False) and a and sim.ctx.ch.coin(1, 3, "equal-but-not-identical-handles"):
+            # handles are values: an equal node / port object built by the client names the same node / port
+            from hugr.hugr.node_port import InPort, Node, OutPort
+            def fresh(x):
+                if type(x) is Node:
+                    return Node(x.idx)
+                if type(x) is OutPort:
+                    return OutPort(Node(x.node.idx), x.offset)
+                if type(x) is InPort:
+                    return InPort(Node(x.node.idx), x.offset)
+                return x
+            a = tuple(fresh(x) for x in a)
+            sim.ctx.probe("equal_but_not_identical_handles")
         try:
             r = fn(*a, **kw)
         except Exception as e:  # noqa: BLE001
@@ -663,6 +676,7 @@ class BuilderSim:
         _EMPTY_ROW_SUMS[0] = ch if self.features.get("empty_row_sums", ch.coin(1, 2, "f-empty-row-sums")) else None
         self.max_depth = 1 + ch.draw(4, "max-depth")
         self.max_row_width = ch.draw(4, "max-row")
+        self.fresh_handles = self.features.get("fresh_handles", True) and ch.coin(1, 4, "f-fresh-handles")
         # size class (swarm): some programs are several times longer, nest deeper and use wide rows
         self.large = bool(self.features.get("large", root_inputs is None and ch.coin(1, 25, "size-class-large")))
         if self.large:
@@ -1059,6 +1073,9 @@ class BuilderSim:
             a.add_op(t.Not, [a.find(t.B)], [t.B], md, "Not")
         elif op == "Fanout":
             n = ch.draw(4, "fanout-n") + (ch.draw(10, "fanout-n-large") if self.large else 0)
+            if ch.coin(1, 8, "wide-fanout"):
+                n += 6 + ch.draw(8, "fanout-n-wide")
+                self.ctx.probe("op_with_9_ports_or_more")
             a.add_op(t.fanout(n), [a.find(t.B)], [t.B] * n, md, "Fanout")
             self.ctx.probe("row_polymorphic_ext_op")
             if n != 1:
@@ -1394,6 +1411,13 @@ class BuilderSim:
 
     def step_order(self, a: Actor):
         ch = self.ctx.ch
+        if self.features.get("order_to_output", True) and getattr(a.b, "output_node", None) is not None and ch.coin(1, 6, "order-edge-to-the-output-node"):
+            # the Output node has a state-order input like any other dataflow node (nothing follows it: no cycle)
+            src = a.nodes[ch.draw(len(a.nodes), "order-src")]
+            if src.idx != a.b.output_node.idx:
+                a.call("add_state_order", a.b.add_state_order, src, a.b.output_node)
+                self.ctx.probe("state_order_into_output_node")
+                return
         i = ch.draw(len(a.nodes) - 1, "order-src")
         j = i + 1 + ch.draw(len(a.nodes) - 1 - i, "order-dst")
         src, dst = a.nodes[i], a.nodes[j]
@@ -1530,6 +1554,18 @@ class ModuleCtl:
     def call(self, name, fn, *a, **kw):
         return Actor.call(self, name, fn, *a, **kw)
 
+    def annotate(self, node):
+        """Metadata written on a module-level node after the fact (`node.metadata[...] = ...`)."""
+        md = self.sim.maybe_meta()
+        if md is not None:
+            self.sim.hugr[node].metadata.update(md)
+            self.sim.meta[node.idx] = md
+            self.sim.ctx.ev(0, "annotate", node.idx)
+            self.sim.ctx.probe("module_level_node_annotated")
+
+    def add_out(self, node, tys_):
+        return []
+
     def step(self):
         sim = self.sim
         ch = sim.ctx.ch
@@ -1560,10 +1596,12 @@ class ModuleCtl:
             sim.funcs.append(rec)
             sim.actors.append(a)
             sim.ctx.probe("define_function")
+            self.annotate(fb.parent_node)
         elif k == 1:  # declare a function
             ins, outs = sim.gen_row(3), sim.gen_row(2)
             sig = t.tys.PolyFuncType([], t.tys.FunctionType(ins, outs))
             n = self.call("declare_function", m.declare_function, name, sig)
+            self.annotate(n)
             sim.funcs.append({"node": n, "name": name, "actor": None, "calls": 0, "poly_kind": None, "sig": sig,
                               "callable": lambda: True})
         elif k == 2:  # module-level constant
@@ -1589,6 +1627,7 @@ class ModuleCtl:
                 ins, outs = sim.gen_row(2), sim.gen_row(2)
                 sig = t.tys.PolyFuncType([p for p, _ in picked], t.tys.FunctionType(ins, outs))
                 n = self.call("declare_function", m.declare_function, name, sig)
+                self.annotate(n)
                 sim.funcs.append({"node": n, "name": name, "actor": None, "calls": 0, "poly_kind": "misc", "sig": sig,
                                   "misc_args": [a for _, a in picked], "callable": lambda: True})
                 sim.ctx.probe("poly_misc_params")
@@ -1614,6 +1653,7 @@ class ModuleCtl:
                 sim.ctx.probe("poly_define")
             else:
                 n = self.call("declare_function", m.declare_function, name, sig)
+                self.annotate(n)
                 sim.funcs.append({"node": n, "name": name, "actor": None, "calls": 0, "poly_kind": kind, "sig": sig,
                                   "callable": lambda: True})
 
